@@ -258,12 +258,7 @@ func RunCheck(o CheckOpts) int {
 
 	byName := map[string]*ObligationResult{}
 	var order []string
-	type sres struct {
-		ob  *ObligationResult
-		in  *Instance
-		res SolveResult
-	}
-	var all []sres
+	groups := map[string][]*Instance{}
 	for _, fr := range results {
 		fp := funcProps(cs.Funcs[fr.Name])
 		if fr.OutOfReach != "" {
@@ -288,61 +283,46 @@ func RunCheck(o CheckOpts) int {
 			ob.Instances++
 			if !in.Cover && in.Goal == "true" {
 				ob.Trivial++
-				continue
 			}
-			wg.Add(1)
-			sem <- struct{}{}
-			go func(fr *FuncResult, in *Instance, ob *ObligationResult) {
-				defer wg.Done()
-				defer func() { <-sem }()
-				q := BuildQuery(fr, in)
-				r := Solve(q, timeout, thorough, in.Cover)
-				mu.Lock()
-				all = append(all, sres{ob, in, r})
-				mu.Unlock()
-			}(fr, in, ob)
+			groups[in.Name] = append(groups[in.Name], in)
+			for _, n := range in.Notes {
+				if !contains(ob.Notes, n) {
+					ob.Notes = append(ob.Notes, n)
+				}
+			}
 		}
+	}
+	var solverMs int64
+	for name, ins := range groups {
+		ob := byName[name]
+		wg.Add(1)
+		sem <- struct{}{}
+		go func(ob *ObligationResult, ins []*Instance) {
+			defer wg.Done()
+			defer func() { <-sem }()
+			status, failing, r := SolveGroup(ob.fr, ins, timeout, thorough)
+			mu.Lock()
+			defer mu.Unlock()
+			solverMs += r.Ms
+			ob.Ms = r.Ms
+			ob.Solver = r.Solver
+			if ob.Kind == "cover" {
+				ob.coverSat = status != "unsat"
+				return
+			}
+			switch status {
+			case "unsat":
+			case "sat":
+				ob.Result = "failed"
+				ob.failing, ob.failRes = failing, r
+			default:
+				ob.Result = "unknown"
+				ob.failing, ob.failRes = failing, r
+				ob.Reason = "solver answered " + r.Status + " (" + strings.Join(r.Agree, " ") + ")"
+			}
+		}(ob, ins)
 	}
 	wg.Wait()
-	var solverMs int64
-	for _, s := range all {
-		solverMs += s.res.Ms
-		ob := s.ob
-		ob.Ms += s.res.Ms
-		if ob.Solver == "" {
-			ob.Solver = s.res.Solver
-		}
-		for _, n := range s.in.Notes {
-			if !contains(ob.Notes, n) {
-				ob.Notes = append(ob.Notes, n)
-			}
-		}
-		if s.in.Cover {
-			// reachable if ANY path instance is satisfiable (or undecided)
-			if s.res.Status != "unsat" {
-				ob.coverSat = true
-			}
-			continue
-		}
-		switch s.res.Status {
-		case "unsat":
-		case "sat":
-			if ob.Result != "failed" {
-				ob.Result = "failed"
-				ob.failing = s.in
-				ob.failRes = s.res
-				ob.Solver = s.res.Solver
-			}
-		default:
-			if ob.Result == "discharged" {
-				ob.Result = "unknown"
-				ob.failing = s.in
-				ob.failRes = s.res
-				ob.Reason = "solver answered " + s.res.Status + " (" + strings.Join(s.res.Agree, " ") + ")"
-			}
-		}
-	}
-
 	for _, ob := range byName {
 		if ob.Kind == "cover" && !ob.coverSat && ob.Instances > ob.Trivial {
 			ob.Result = "vacuous"
